@@ -347,6 +347,12 @@ class SchedRLock:
         return True
 
     def release(self):
+        if self.sched.closed or self.sched.aborted:
+            # the run is over / being torn down: threads unwind through their `with lock:` blocks
+            self.count = max(0, self.count - 1)
+            if self.count == 0:
+                self.owner = None
+            return
         if self.owner is not self._me():
             raise RuntimeError("cannot release un-acquired lock")
         self.count -= 1
